@@ -91,50 +91,87 @@ func tearPoints(kind string, total int) []int {
 }
 
 type crashArg struct {
-	Img []struct {
-		N    int  `json:"n"`
-		Torn bool `json:"torn"`
-	} `json:"img"`
-	K   string  `json:"k"`
-	S   int     `json:"s"`
-	Fex []bool  `json:"fex"` // which files exist at the moment of the crash
-	Pre [][]int `json:"pre"`
+	Img [][]string `json:"img"` // per file, per record: "ok" | "lost" | "torn" (records lost at the tail are cut)
+	K   string     `json:"k"`
+	S   int        `json:"s"`
+	Fex []bool     `json:"fex"` // which files exist at the moment of the crash
+	Pre [][]int    `json:"pre"`
+}
+
+// syncsOf lists the positions (in the operation log) of the successful syncs of a file.
+func (s *StoreSession) syncsOf(seq int) (out []uint64) {
+	name := filepath.Join(s.dir, moss.FormatFName(int64(seq)))
+	s.flog.mu.Lock()
+	defer s.flog.mu.Unlock()
+	for _, op := range s.flog.Ops {
+		if op.Name == name && op.Op == "sync" && op.Err == "" {
+			out = append(out, op.Seq)
+		}
+	}
+	return
 }
 
 // materialise builds the post-crash directory the model chose from the
-// recorded writes of the implementation.
+// recorded writes of the implementation.  The image must be one the crash
+// model allows for the *recorded* trace: a record may only be lost or torn if
+// the implementation did not sync the file between writing it and writing a
+// record that survives (errSkip otherwise: not a legal image of this trace).
 func (s *StoreSession) materialise(a crashArg) (string, error) {
 	dir, err := ioutil.TempDir(scratchBase(), "crash")
 	if err != nil {
 		return "", err
 	}
+	fail := func(e error) (string, error) {
+		os.RemoveAll(dir)
+		return "", e
+	}
 	tornSeen := false
-	for i, im := range a.Img {
+	for i, st := range a.Img {
 		seq := i + 1
 		if i < len(a.Fex) && !a.Fex[i] {
 			continue // not created yet when the crash happens
 		}
 		exists, recs := s.records(seq)
 		if !exists {
-			if im.N > 0 {
-				os.RemoveAll(dir)
-				return "", fmt.Errorf("model expects %d records in file %d which the implementation never created", im.N, seq)
+			if len(st) > 0 {
+				return fail(fmt.Errorf("model expects %d records in file %d which the implementation never created", len(st), seq))
 			}
 			continue
 		}
-		if im.N > len(recs) {
-			os.RemoveAll(dir)
-			return "", fmt.Errorf("file %d: model has %d records, implementation wrote %d", seq, im.N, len(recs))
+		if len(st) > len(recs) {
+			return fail(fmt.Errorf("file %d: model has %d records, implementation wrote %d", seq, len(st), len(recs)))
+		}
+		// legality against the recorded syncs
+		syncs := s.syncsOf(seq)
+		for j := 0; j < len(recs) && j < len(st)+1; j++ {
+			lostJ := j >= len(st) || st[j] != "ok"
+			if !lostJ {
+				continue
+			}
+			lastWrite := recs[j].ops[len(recs[j].ops)-1].Seq
+			for k := j + 1; k < len(st); k++ {
+				if st[k] == "lost" {
+					continue
+				}
+				firstWrite := recs[k].ops[0].Seq
+				for _, sy := range syncs {
+					if sy > lastWrite && sy < firstWrite {
+						return fail(errSkip) // record j was durable before record k was written
+					}
+				}
+			}
 		}
 		f, err := os.OpenFile(filepath.Join(dir, moss.FormatFName(int64(seq))), os.O_RDWR|os.O_CREATE, 0600)
 		if err != nil {
-			os.RemoveAll(dir)
-			return "", err
+			return fail(err)
 		}
-		for j := 0; j < im.N; j++ {
+		for j := 0; j < len(st); j++ {
 			rec := recs[j]
+			if st[j] == "lost" {
+				continue
+			}
 			limit := -1
-			if im.Torn && j == im.N-1 {
+			if st[j] == "torn" {
 				total := 0
 				for _, op := range rec.ops {
 					total += len(op.Data)
@@ -142,8 +179,7 @@ func (s *StoreSession) materialise(a crashArg) (string, error) {
 				pts := tearPoints(rec.kind, total)
 				if s.D.Variant >= len(pts) {
 					f.Close()
-					os.RemoveAll(dir)
-					return "", errEnd
+					return fail(errEnd)
 				}
 				limit = pts[s.D.Variant]
 				tornSeen = true
@@ -161,16 +197,14 @@ func (s *StoreSession) materialise(a crashArg) (string, error) {
 				}
 				if _, err := f.WriteAt(data, op.Off); err != nil {
 					f.Close()
-					os.RemoveAll(dir)
-					return "", err
+					return fail(err)
 				}
 			}
 		}
 		f.Close()
 	}
 	if !tornSeen && s.D.Variant > 0 {
-		os.RemoveAll(dir)
-		return "", errEnd
+		return fail(errEnd)
 	}
 	return dir, nil
 }
